@@ -121,6 +121,16 @@ pub fn run(tier: &str, seed: u64, out: &mut Out) {
 /// reference reaches when the bundle is executed
 pub fn run_links(tier: &str, seed: u64, out: &mut Out) {
     use glass_easel_template_compiler::TmplGroup;
+    // dangling references whose resolved paths are spelled like members of Object.prototype: nothing is linked, nothing throws
+    {
+        let src = "before<include src=\"../constructor.wxml\"/><import src=\"/hasOwnProperty\"/><import src=\"../toString\"/><template is=\"call\"/><template is=\"constructor\"/><include src=\"/valueOf\"/>after";
+        let mut tg = TmplGroup::new();
+        { crate::util::note_input(src); tg.add_tmpl("pages/index", src) };
+        tg.add_tmpl("pages/other", "<view>other</view>");
+        let job = serde_json::json!({"kind": "dangling", "main": "pages/index", "src": src, "bundle": tg.get_tmpl_gen_object_groups().unwrap_or_default(),
+                                     "bundle_wx": tg.get_wx_gen_object_groups().unwrap_or_default(), "expect": "beforeafter"});
+        out.raw(&job.to_string());
+    }
     let mut rng = Rng::new(seed ^ 0x11f);
     let n = if tier == "thorough" { 600 } else { 80 };
     // registered paths (normalised) and how a referrer at `pages/main` may spell them
